@@ -5,13 +5,14 @@ package refenc
 
 import (
 	"encoding/binary"
+	"hash/crc32"
 	"math"
 	"math/bits"
 )
 
 type B []byte
 
-func (b *B) U8(v uint8)   { *b = append(*b, v) }
+func (b *B) U8(v uint8) { *b = append(*b, v) }
 func (b *B) Bool(v bool) {
 	if v {
 		b.U8(1)
@@ -19,11 +20,11 @@ func (b *B) Bool(v bool) {
 		b.U8(0)
 	}
 }
-func (b *B) I16(v int16)  { *b = binary.BigEndian.AppendUint16(*b, uint16(v)) }
-func (b *B) U16(v uint16) { *b = binary.BigEndian.AppendUint16(*b, v) }
-func (b *B) I32(v int32)  { *b = binary.BigEndian.AppendUint32(*b, uint32(v)) }
-func (b *B) U32(v uint32) { *b = binary.BigEndian.AppendUint32(*b, v) }
-func (b *B) I64(v int64)  { *b = binary.BigEndian.AppendUint64(*b, uint64(v)) }
+func (b *B) I16(v int16)   { *b = binary.BigEndian.AppendUint16(*b, uint16(v)) }
+func (b *B) U16(v uint16)  { *b = binary.BigEndian.AppendUint16(*b, v) }
+func (b *B) I32(v int32)   { *b = binary.BigEndian.AppendUint32(*b, uint32(v)) }
+func (b *B) U32(v uint32)  { *b = binary.BigEndian.AppendUint32(*b, v) }
+func (b *B) I64(v int64)   { *b = binary.BigEndian.AppendUint64(*b, uint64(v)) }
 func (b *B) F32(v float32) { b.U32(math.Float32bits(v)) }
 func (b *B) F64(v float64) { *b = binary.BigEndian.AppendUint64(*b, math.Float64bits(v)) }
 
@@ -119,4 +120,27 @@ func (b *B) ArrText(a []string) {
 	for _, v := range a {
 		b.Text(v)
 	}
+}
+
+// H64 is the 64-bit table-driven CRC variant used for license and tag hashes:
+// crc = (crc >>> 8) ^ signext32to64(T[(crc ^ b) & 0xff]), all-ones start, final inversion,
+// T = the IEEE CRC-32 table.
+func H64(p []byte) int64 {
+	crc := ^uint64(0)
+	for _, c := range p {
+		crc = crc>>8 ^ uint64(int64(int32(crc32.IEEETable[byte(crc)^c])))
+	}
+	return int64(^crc)
+}
+
+// Frame is one one-way TCP message: source 10, version 0, pcode, license hash, length, payload.
+func Frame(pcode int64, license string, payload []byte) []byte {
+	var b B
+	b.U8(10)
+	b.U8(0)
+	b.I64(pcode)
+	b.I64(H64([]byte(license)))
+	b.I32(int32(len(payload)))
+	b.Raw(payload)
+	return b
 }
